@@ -179,6 +179,13 @@ def run(chk):
                 if e:
                     texts.append(e[0])
             texts += gen_check.broken_variants(c["script"], rng, 1)
+        # every kind of diagnostic as the ONLY one of a text: zero denominators, edge literals, each static error alone
+        import tricky
+        texts += tricky.literal_scripts(rng, chk.size(30, 400))
+        for z in ("1/0", "0/0", "7 / 0", "00/000"):
+            texts.append("send [USD 10] (\n  source = @world\n  destination = { %s to @a remaining to @b }\n)\n" % z)
+            texts.append("send [USD 10] (\n  source = { %s from @a remaining from @world }\n  destination = @b\n)\n" % z)
+            texts.append("set_tx_meta(\"k\", %s)\n" % z)
         # boundary numbers of error diagnostics (an exit status keeps 8 bits)
         for k in (1, 2, 255, 256, 257, 512, 1024):
             texts.append("".join('set_tx_meta("k%d", $u%d)\n' % (j % 7, j) for j in range(k)))
@@ -201,7 +208,10 @@ def run(chk):
                     fails.append(({"script": t}, {"exit": code}, o, ["analysis panics in the library, CLI exits 0"]))
                 continue
             why = []
-            nerr = o["errorCount"]
+            # counted here from the severities of the diagnostics themselves, not taken from GetErrorsCount()
+            nerr = sum(1 for d in o["diags"] if d[1] == "1")
+            if o.get("errorCount") != nerr:
+                why.append("GetErrorsCount() = %s with %d error-severity diagnostics" % (o.get("errorCount"), nerr))
             if (code != 0) != (nerr > 0):
                 why.append("exit status %d with %d error-severity diagnostics" % (code, nerr))
             clean = ANSI.sub("", out)
